@@ -140,6 +140,7 @@ class Harness:
         self.gate = gate  # async callable(label) or None
         self.sdl = None
         self.engine = None
+        self.foreign = []  # tokens of foreign requests served by this harness' implementations (must stay empty)
 
     # default request state (one request at a time); C15 passes its own states through the context
     tree = property(lambda self: self.rs.tree)
@@ -152,6 +153,9 @@ class Harness:
     def state_of(self, ctx):
         if isinstance(ctx, dict) and "$rs" in ctx:
             return ctx["$rs"]
+        if isinstance(ctx, dict) and "token" in ctx and ctx is not self.ctx_token:
+            # a request of another harness (another schema name) reached an implementation registered for this one
+            self.foreign.append(ctx.get("token"))
         return self.rs
 
     # ---------------------------------------------------------------- resolvers
@@ -303,7 +307,12 @@ class Harness:
             kw["custom_default_resolver"] = self.custom_default_resolver
         if self.plan.get("tr_engine"):
             kw["custom_default_type_resolver"] = self.make_type_resolver("engine")
-        self.engine = await create_engine(self.sdl, schema_name=self.name, **kw)
+        if self.plan.get("two_step"):
+            # configuration given to the constructor, cook() called without repeating it
+            self.engine = Engine(self.sdl, schema_name=self.name, **kw)
+            await self.engine.cook()
+        else:
+            self.engine = await create_engine(self.sdl, schema_name=self.name, **kw)
         return self.engine
 
     def set_tree(self, tree):
